@@ -2,6 +2,7 @@
 import re
 
 from bibtexparser.model import DuplicateFieldKeyBlock, Entry, ParsingFailedBlock
+import bibtexparser
 from bibtexparser.splitter import Splitter
 
 from .. import bigdocs, spaces
@@ -233,11 +234,13 @@ def _reason(b):
     return None
 
 
-def check_text(text, acc, case=None):
+def check_text(text, acc, case=None, route="split"):
     case = case if case is not None else {"text": text}
+    if route != "split":
+        case = dict(case, route=route)
     acc.trace()
     try:
-        lib = Splitter(text).split()
+        lib = Splitter(text).split() if route == "split" else bibtexparser.parse_string(text)
     except Exception as e:  # C01's subject; here the trace is inconclusive
         acc.raised[type(e).__name__] += 1
         acc.case()
@@ -278,11 +281,15 @@ def run_shard(shard, tier, acc):
     elif kind == "dev":
         for edits, toks in spaces.deviation_iter(shard, spaces.SIGMA_DOC):
             check_text("".join(toks), acc)
+            if shard[2] <= 1:
+                check_text("".join(toks), acc, route="parse_string")
         acc.count(f"deviation_k{shard[2]}_docs")
     elif kind == "big":
         for text in big_texts(shard[1], shard[2]):
             acc.count("big_texts")
             check_text(text, acc, case={"big": [shard[1], shard[2]], "text": text})
+            # the blocks parse_string returns (default stack) must tile the source as well
+            check_text(text, acc, case={"big": [shard[1], shard[2]], "text": text}, route="parse_string")
     elif kind == "layout":
         for text in layout_iter(shard[1]):
             check_text(text, acc)
@@ -290,7 +297,7 @@ def run_shard(shard, tier, acc):
 
 
 def replay(case, acc):
-    check_text(case["text"], acc, case)
+    check_text(case["text"], acc, case, route=case.get("route", "split"))
 
 
 def unit_test(case):
